@@ -48,7 +48,7 @@ def replay_with_history(run_case, prog):
     fresh object."""
     prev = prog.get("previous")
     cur = {k: v for k, v in prog.items() if k != "previous"}
-    if prev is None:
+    if prev is None or cur["model"] not in ("SupervisedOPF", "SemiSupervisedOPF"):
         return run_case(cur)
     kind, metric, pre = cache_key(cur)
     m = fresh_model(kind, metric, pre)
@@ -93,10 +93,17 @@ def fit_program(prog, fresh=False, model=None):
         X = np.array(prog["X"], dtype=float)
         m = mk(kind, prog["metric"], False)
         Xl = X[:nl].copy()
+        if prog.get("labeled_dtype"):
+            # the labeled matrix arrives in another dtype (its values are representable in it)
+            Xl = Xl.astype(np.dtype(prog["labeled_dtype"]))
+        kw = {}
+        if prog.get("I_train") is not None:
+            # index arrays may be passed without pre-computed distances too
+            kw["I_train"] = np.array(prog["I_train"], dtype=int)
         if kind == "SemiSupervisedOPF":
-            m.fit(Xl, lab, X[nl:nl + nu].copy())
+            m.fit(Xl, lab, X[nl:nl + nu].copy(), **kw)
         else:
-            m.fit(Xl, lab)
+            m.fit(Xl, lab, **kw)
         fn = m.distance_fn
         n = nl + nu
         Wd = [[float(fn(X[a].copy(), X[b].copy())) if a != b else 0.0 for b in range(n)]
